@@ -77,7 +77,9 @@ fn oracle(c: &Case, acc: &mut Acc) -> CaseResult {
         }
         for j in 0..k {
             // mostly small payloads; every 5th message is empty, every 7th is large
-            let plen = if j % 5 == 4 { 0 } else if j % 7 == 6 { 3000 + j } else { 1 + (j * 7) % 23 };
+            // ... and in one session out of eight message 1 has the largest payload a transport
+            // message can carry (65519 bytes, 65535 on the wire)
+            let plen = if j == 1 && c.seed % 8 == 3 { 65519 } else if j % 5 == 4 { 0 } else if j % 7 == 6 { 3000 + j } else { 1 + (j * 7) % 23 };
             let payload = expand(c.seed, (d * 100 + j) as u64, plen);
             let w = if d == 0 { &mut ti } else { &mut tr };
             let m = t_write(w, &payload, payload.len() + 16).map_err(|x| Fail::setup(format!("{name}: write: {}", e(&x))))?;
